@@ -177,6 +177,24 @@ class RegSub(Reg):
     """not registered itself: covered through its registered superclass"""
 
 
+class Late:
+    """uses pretty_repr before any printer is registered for it (documented
+    fallback with a warning); a printer is registered afterwards"""
+
+    def __init__(self, x):
+        self.x = x
+
+    __repr__ = PKG.pretty_repr
+
+
+class LateSub(Late):
+    pass
+
+
+def pretty_late(value, ctx):
+    return PP.pretty_call(ctx, type(value), value.x)
+
+
 VALUES = {
     'int': lambda: 7,
     'list': lambda: [1, 'two', (3,)],
@@ -185,6 +203,8 @@ VALUES = {
     'nested': lambda: [[1, 2, 3], [4, 5, 6]],
     'reg': lambda: Reg([1, 2]),
     'regsub': lambda: RegSub({'k': (1,)}),
+    'late': lambda: Late([1, 2]),
+    'latesub': lambda: LateSub('x'),
 }
 
 
@@ -205,7 +225,10 @@ class AgreeCase(pfbase.CfgCase):
         describe = lambda: 'value=%s entry=%s cfg=%r w=%r rw=%r' % (self.vname, self.entry, cfg, w, rw)
         PKG._default_config = dict(INITIAL)
         try:
-            base_text = PKG.pformat(v, width=w, ribbon_width=rib, **cfg)
+            with warnings.catch_warnings():
+                if self.entry == 'pretty_repr-late':
+                    warnings.simplefilter('ignore')    # (unregistered at this point: documented warning)
+                base_text = PKG.pformat(v, width=w, ribbon_width=rib, **cfg)
             sink = stubs.Sink()
             if self.entry == 'pprint':
                 PKG.pprint(v, stream=sink, width=w, ribbon_width=rib, end=self.end, **cfg)
@@ -236,6 +259,24 @@ class AgreeCase(pfbase.CfgCase):
             elif self.entry == 'pretty_repr':
                 got = repr(v)
                 want = PKG.pformat(v)
+            elif self.entry == 'pretty_repr-late':
+                # repr() while unregistered, then a printer is registered (for the
+                # class or its base): from then on repr() is the pformat text
+                from vf.props import c15
+                with NoTracing():
+                    c15.snapshot()
+                    try:
+                        with warnings.catch_warnings():
+                            warnings.simplefilter('ignore')
+                            before = repr(v)
+                        PP.register_pretty(Late)(pretty_late)
+                        got = repr(v)
+                        want = PKG.pformat(v)
+                    finally:
+                        c15.reset()
+                if 'object at 0x' not in before:
+                    return self.fail('C18:entry-points-disagree:pretty_repr',
+                                     lambda: describe() + '\nunregistered repr: %r' % before)
             else:
                 raise ValueError(self.entry)
         except Exception as e:
@@ -291,6 +332,8 @@ def cases(tier, seed):
     entries = ['pprint', 'cpprint', 'PrettyPrinter.pformat', 'PrettyPrinter.pprint', 'defaults']
     n = 0
     for vname in VALUES:
+        if vname.startswith('late'):
+            continue
         for entry in entries:
             for ci, cfg in enumerate(cfgs):
                 n += 1
@@ -306,6 +349,9 @@ def cases(tier, seed):
                 'params': {'value': 'reg', 'entry': 'pretty_repr', 'slice': 'default'}, 'budget': 60.0})
     out.append({'name': 'agree:regsub:pretty_repr', 'family': 'agree',
                 'params': {'value': 'regsub', 'entry': 'pretty_repr', 'slice': 'default'}, 'budget': 60.0})
+    for vname in ('late', 'latesub'):
+        out.append({'name': 'agree:%s:pretty_repr-late' % vname, 'family': 'agree',
+                    'params': {'value': vname, 'entry': 'pretty_repr-late', 'slice': 'default'}, 'budget': 60.0})
     return out
 
 
